@@ -159,7 +159,9 @@ impl TraceMonitor {
             if let Some(r) = &self.ranges {
                 let half = (r[0].1 - r[0].0) / 2.;
                 let x = f64::from_bits(bits[0]);
-                let mv = self.seen1.iter().map(|b| (x - f64::from_bits(*b)).abs() / half).fold(f64::INFINITY, f64::min);
+                // (a parameter whose range is empty cannot move at all)
+                let rel = |d: f64| if half > 0. { d / half } else if d > 0. { f64::MAX } else { 0. };
+                let mv = self.seen1.iter().map(|b| rel((x - f64::from_bits(*b)).abs())).fold(f64::INFINITY, f64::min);
                 if mv.is_finite() && mv > self.max_move_over_halfrange {
                     self.max_move_over_halfrange = mv;
                     self.worst_move = Some(json!({"call": idx, "proposal": v, "move_over_half_range": mv, "note": "single parameter: nearest of all earlier values"}));
@@ -197,7 +199,8 @@ impl TraceMonitor {
                     for c in 0..bits.len().min(r.len()) {
                         if h.v[c] != bits[c] {
                             let half = (r[c].1 - r[c].0) / 2.;
-                            mv = mv.max((f64::from_bits(bits[c]) - f64::from_bits(h.v[c])).abs() / half);
+                            let d = (f64::from_bits(bits[c]) - f64::from_bits(h.v[c])).abs();
+                            mv = mv.max(if half > 0. { d / half } else if d > 0. { f64::MAX } else { 0. });
                         }
                     }
                     best_move = best_move.min(mv);
